@@ -560,6 +560,64 @@ def pure_wrapper_kernels(prefix, file, cls, statecls, fname, fty, methods):
 
 _ALL_METHODS = ["initial", "transition", "observation", "reward", "terminal", "truncate", "action_mask", "transition_info"]
 
+# ------------------------------------------------------------------------------------------------ C10: SAC update gating (sac_train)
+def _sactrain_bind():
+    """gradient / optimiser calls are ORACLES: each returns fresh opaque results named after the call site (their data flow is not
+    modelled); what is translated is the control structure around them: which results are kept under which condition"""
+    counter = {"apply": 0}
+
+    def oracle(*names, types=None):
+        def f(ex, n, args, kwargs):
+            tys = types or ["O"] * len(names)
+            out = tuple(Sc(t, nm) for nm, t in zip(names, tys))
+            return out if len(out) > 1 else out[0]
+        return Prim(f)
+
+    def apply_updates(ex, n, args, kwargs):
+        counter["apply"] += 1
+        if counter["apply"] == 1:
+            return (O("qf1'"), O("qf2'"))
+        if counter["apply"] == 2:
+            return O("policy'")
+        fail(n, "unexpected eqx.apply_updates call")
+
+    def sample(ex, n, args, kwargs):
+        if len(args) != 1 or set(kwargs) != {"key"}:
+            fail(n, "buffer.sample call form")
+        return Obj({"observations": vecO("b_obs"), "next_observations": vecO("b_next"), "actions": vecO("b_act"), "rewards": vecR("b_rew"),
+                    "dones": vecB("b_done"), "timeouts": vecB("b_timeout")}, "batch")
+    tb = _sac_target_bind()
+    return {"self": Obj({"batch_size": Z("B"), "gamma": R("gamma"), "policy_frequency": Z("(Z.of_nat freq)"), "autotune": B("autotune"),
+                         "q_loss_grad": oracle("q_loss", "q_grads"), "q_optimizer": Obj({"update": oracle("q_updates", "q_opt'")}, "opt"),
+                         "actor_loss_grad": oracle("a_loss", "a_grads"), "optimizer": Obj({"update": oracle("a_updates", "opt'")}, "opt"),
+                         "alpha_loss_grad": oracle("al_loss", "al_grads"), "alpha_optimizer": Obj({"update": oracle("al_updates", "alpha_opt'")}, "opt")},
+                        "SAC"),
+            "policy": Obj({"action_and_log_prob": tb["@policy"].fields["action_and_log_prob"], "@name": O("policy")}, "policy"),
+            "opt_state": O("opt"), "buffer": Obj({"sample": Prim(sample)}, "buffer"),
+            "qf1": O("qf1"), "qf2": O("qf2"), "qf1_target": tb["@qf1_target"], "qf2_target": tb["@qf2_target"],
+            "q_opt_state": O("q_opt"), "log_alpha": R("la"), "alpha_opt_state": O("alpha_opt"), "target_entropy": R("tent"),
+            "iteration_count": Z("(Z.of_nat count)"), "key": K("k"),
+            "@filter_cond": BUILTIN_COND, "@eqx.apply_updates": Prim(apply_updates), "@optax.apply_updates": oracle("la'", types=["R"]),
+            "@eqx.filter": Prim(lambda ex, n, a, k: a[0]), "@eqx.is_inexact_array": Static("is_inexact_array"),
+            "@optax.tree_utils.tree_get": oracle("lr")}
+
+
+def _sactrain_out(res, ex):
+    if not (isinstance(res, tuple) and len(res) == 8):
+        raise TranslateError("sac_train no longer returns its eight results")
+
+    def t(v):
+        if isinstance(v, Obj) and "@name" in v.fields:
+            return v.fields["@name"].t
+        return term_of(v)
+
+    def sel(v):      # select on policy objects: the executor merges Obj fields; recover the @name field
+        return t(v)
+    names = ["policy", "opt_state", "qf1", "qf2", "q_opt_state", "log_alpha", "alpha_opt_state"]
+    tys = ["X", "X", "X", "X", "X", "R", "X"]
+    return [(nm, ty, sel(v)) for nm, ty, v in zip(names, tys, res[:7])]
+
+
 # ------------------------------------------------------------------------------------------------ C20: gait (per-foot view)
 def _p_fmod(ex, n, args, kwargs):
     if len(args) != 2 or kwargs:
@@ -631,7 +689,10 @@ KERNELS = {
             Kernel("dqn_per_iteration", "algorithm/dqn.py", "DQN", "per_iteration", _dqn_periter_bind,
                    "{X : Type} (interval count : nat) (online target : X)", _dqn_periter_out, prims=_SCHED_PRIMS),
             Kernel("polyak", "algorithm/sac.py", None, "_soft_update_targets", _polyak_bind,
-                   "(tau q1 t1 q2 t2 : R)", _polyak_out, prims=_SCHED_PRIMS)],
+                   "(tau q1 t1 q2 t2 : R)", _polyak_out, prims=_SCHED_PRIMS),
+            Kernel("sactrain", "algorithm/sac.py", "SAC", "sac_train", _sactrain_bind,
+                   "{X : Type} (autotune : bool) (freq count : nat) (policy policy' opt opt' qf1 qf1' qf2 qf2' q_opt q_opt' alpha_opt alpha_opt' : X) (la la' : R)",
+                   _sactrain_out)],
     "C08": [Kernel("ppo", "algorithm/ppo.py", "PPO", "ppo_loss", _ppo_bind,
                    "(normalize clip_vf : bool) (eps cv ce : R) (values log_probs entropy old_log_probs advs old_values returns : list R)",
                    _ppo_out,
@@ -687,7 +748,8 @@ def translate(pid):
                     if isinstance(node, ast.FunctionDef) and node.name in k.module_funcs:
                         scope[node.name] = Closure(node, scope)
             b = k.bindings()
-            scope.update({nm[1:]: v for nm, v in b.items() if nm.startswith("@")})
+            scope.update({nm[1:]: v for nm, v in b.items() if nm.startswith("@") and "." not in nm})
+            ex.prims.update({nm[1:]: v for nm, v in b.items() if nm.startswith("@") and "." in nm})
             res = run_function(ex, fn, b, scope)
             out.append((k, sha, k.outputs(res, ex)))
         except TranslateError as e:
